@@ -187,6 +187,13 @@ impl PacketBuilder {
                         return PacketBuildResult::Error(MqttError::MalformedPacket);
                     }
 
+                    // A final zero byte behind continuation bytes pads the value: the Remaining
+                    // Length MUST use the minimum number of bytes [MQTT-1.5.5-1]
+                    if encoded_byte == 0 && self.multiplier > 1 {
+                        self.reset();
+                        return PacketBuildResult::Error(MqttError::MalformedPacket);
+                    }
+
                     self.remaining_length +=
                         ((encoded_byte & 0x7F) as usize) * (self.multiplier as usize);
                     self.multiplier *= 128;
